@@ -449,6 +449,21 @@ pub mod verif {
         out
     }
 
+    /// Number of debt slots (fast and helping, of all nodes) currently holding `addr`.
+    pub fn slots_holding(addr: usize) -> usize {
+        let mut n = 0;
+        let mut cur = LIST_HEAD.peek() as *const Node;
+        while let Some(node) = unsafe { cur.as_ref() } {
+            n += node
+                .fast_slots()
+                .chain(core::iter::once(node.helping_slot()))
+                .filter(|d| d.0.peek() == addr)
+                .count();
+            cur = node.next;
+        }
+        n
+    }
+
     pub fn list_head_addr() -> usize {
         LIST_HEAD.addr()
     }
